@@ -462,8 +462,8 @@ def consistentIvs (S : List Iv) : Bool := S.all fun i => S.all fun j => i.name !
 
 /-- **the graph-and-query part of the class** (no domain enters):
 * one world: across ALL ancestral components a vertex is named by one counterfactual variable only;
-* every outcome is found in the components under its own name (`OutcomesFound`), no outcome shares its vertex with a
-  condition (`OutcomeNotCondition`), the outcomes are over pairwise distinct vertices;
+* every outcome is found in the components under its own name (`OutcomesFound`), the outcomes are over pairwise distinct
+  vertices (an outcome MAY share its vertex with a condition: in one world it is then redundant);
 * no query variable intervenes on itself, or twice on one vertex with different values;
 * no literal subscript of the query names a vertex of the components, unless it names a condition (a subscript that names
   a summed vertex would be captured by one of the two sums of line 4: the `literal_bound` finding). -/
@@ -473,7 +473,7 @@ def ctfTRLinkClass (g : MG Name) (o c : Ctf.Event) : Bool :=
   | .ok comps =>
     let T := comps.flatten
     (T.all fun a => T.all fun b => a.name != b.name || decide (a = b)) &&
-    OutcomesFound g o c && OutcomeNotCondition o c && decide ((o.map (·.1.name)).Nodup) &&
+    OutcomesFound g o c && decide ((o.map (·.1.name)).Nodup) &&
     (o ++ c).all (fun p => !Ctf.selfIntervened p.1 && consistentIvs p.1.ivs) &&
     (o ++ c).all (fun p => p.1.ivs.all fun i =>
       !(T.any fun a => a.name == i.name) || decide (i.name ∈ eventNames c))
@@ -498,7 +498,7 @@ def ctfTRInClass (g : MG Name) (domains : List Domain) (o c : Ctf.Event) : Bool 
   | _ => false
 
 /-- the conjuncts of `ctfTRSoundClass` / `ctfTRInClass` one by one (driver op `ctftr condclass`; diagnostics only):
-one world, outcomes found, outcome not condition, outcomes over distinct vertices, no self-intervention and consistent
+one world, outcomes found, outcome not condition (NOT part of the class any more), outcomes over distinct vertices, no self-intervention and consistent
 subscripts, no captured literal subscript, `D_*` in `ctfSoundClass`, a reading of the query exists -/
 def ctfTRClassFlags (g : MG Name) (domains : List Domain) (o c : Ctf.Event) : List Bool :=
   match condComps g o c with
